@@ -450,6 +450,7 @@ func (t *tz) next() Token {
 // Tokenize tokenises s completely (the EOF token is not included).
 func Tokenize(s string) Result {
 	t := &tz{r: preprocess(s)}
+	t.res.Tokens = make([]Token, 0, len(t.r)/2+8)
 	for {
 		tok := t.next()
 		if tok.Kind == EOF {
